@@ -218,6 +218,7 @@ int Kernel::sys_accept(int fd) {
     if (!l->backlog.empty()) {
       int s = l->backlog.front();
       l->backlog.pop_front();
+      if (io_hook) { IoEvent e{"accept", fd, l->tag, thr().pid, nullptr, 0, (long)s, 0}; io_hook(e); }
       return s;
     }
     if (l->nonblock) { errno = EAGAIN; return -1; }
